@@ -86,6 +86,8 @@ func main() {
 		os.Exit(cmdRun(os.Args[2:]))
 	case "replay":
 		os.Exit(cmdReplay(os.Args[2:]))
+	case "debug":
+		os.Exit(cmdDebug(os.Args[2:]))
 	case "list":
 		reg, err := loadRegistry()
 		if err != nil {
@@ -626,4 +628,41 @@ func diffCount(h harnessSpec, ts tierSpec, tier string) int {
 		return 60
 	}
 	return 16
+}
+
+// cmdDebug re-executes the symbolic path of a replay file and prints what the engine observed.
+func cmdDebug(args []string) int {
+	b, err := os.ReadFile(args[0])
+	if err != nil {
+		fmt.Println(err)
+		return 2
+	}
+	var v Violation
+	json.Unmarshal(b, &v)
+	reg, _ := loadRegistry()
+	var spec *harnessSpec
+	for i := range reg {
+		if reg[i].Func == v.Harness {
+			spec = &reg[i]
+		}
+	}
+	lr, err := loadProgram(withSupportPkgs([]string{spec.Pkg}))
+	if err != nil {
+		fmt.Println(err)
+		return 2
+	}
+	defer os.RemoveAll(lr.scratch)
+	fn := lr.eng.findFunc(spec.Pkg, spec.Func)
+	sol, _ := NewSolver([]string{"z3"})
+	defer sol.Close()
+	cfg := RunConfig{MaxSteps: 5000000, MaxPaths: 1, Params: spec.Quick.Params, PermuteMaps: spec.PermuteMaps, KnownActive: map[string]bool{}, Trace: true}
+	pr := lr.eng.runPath(fn, v.Decisions, sol, cfg)
+	fmt.Println("outcome:", pr.outcome, pr.reason)
+	for _, o := range pr.p.observes {
+		fmt.Println("observe", o.Label, o.Val)
+	}
+	for _, x := range pr.violations {
+		fmt.Println("violation", x.Clause, compactJSON(x.Model))
+	}
+	return 0
 }
